@@ -805,10 +805,16 @@ func TypeConforms(ctx map[ast.Variable]ast.BaseTerm, left ast.BaseTerm, right as
 	}
 	if leftConst, ok := left.(ast.Constant); ok {
 		if rightConst, ok := right.(ast.Constant); ok {
-			if strings.HasPrefix(leftConst.Symbol, rightConst.Symbol) {
+			// Equal types, /any and /bot are handled above. What remains is a name
+			// prefix type /a/b, which conforms to /a and to /name. The test mirrors
+			// hasBaseType: the members of /a are the names that start with "/a/".
+			if !isNamePrefixType(leftConst) {
+				return false
+			}
+			if rightConst.Equals(ast.NameBound) {
 				return true
 			}
-			return leftConst.Type == ast.NameType && rightConst.Equals(ast.NameBound)
+			return isNamePrefixType(rightConst) && strings.HasPrefix(leftConst.Symbol, rightConst.Symbol+"/")
 		}
 	}
 	// fn:Singleton(c) <: T if c is a member of T.
@@ -948,6 +954,19 @@ func TypeConforms(ctx map[ast.Variable]ast.BaseTerm, left ast.BaseTerm, right as
 	}
 
 	return false
+}
+
+// isNamePrefixType returns true if c is a name constant used as type
+// expression for the names below it, as opposed to a base type like /number.
+func isNamePrefixType(c ast.Constant) bool {
+	if c.Type != ast.NameType || IsBaseTypeExpression(c) {
+		return false
+	}
+	switch c {
+	case ast.NameBound, ast.TimeBound, ast.DurationBound:
+		return false
+	}
+	return true
 }
 
 func expandTupleType(args []ast.BaseTerm) ast.BaseTerm {
